@@ -11,7 +11,7 @@ Definition ex_oracle : oracle := fun sc r =>
   | _, _ => ANone
   end.
 Definition ex_request (now : Z) : request :=
-  mkQ now (fun _ => 5%N) true (fun _ => Some (true, 10000%Z)) (fun _ => 0%Z)
+  mkQ now (fun _ => 5%N) true (fun _ => Some (true, 10000%Z)) (fun _ => None)
       (fun r => match r with 0 => [OIncr 1%N 2%Z; OPbHas 9%N] | _ => [OPbAdd 9%N 30000%Z] end).
 Definition plain : oracle := fun _ _ => ANone.
 
